@@ -258,7 +258,8 @@ func cmpC03x(c hx.Case, impl any, reply map[string]any) hx.Verdict {
 		return hx.Verdict{IM: false, IS: true, Detail: "harness: " + jstr(im, "err")}
 	case "unparsed":
 		// outside the quantifier; a document the specification side calls normal is well-typed and must parse
-		if normal {
+		// (the loader applies document-level checks of its own while resolving references: not a parsing matter)
+		if normal && !jbool(c, "loader") {
 			return hx.Verdict{IM: false, IS: true, Detail: "normal-form document refused by the parser: " + jstr(im, "err")}
 		}
 		return hx.Verdict{IM: true, IS: true}
@@ -274,7 +275,15 @@ func cmpC03x(c hx.Case, impl any, reply map[string]any) hx.Verdict {
 	first, second := hx.Canon(im["first"]), hx.Canon(im["second"])
 	mfirst, msecond := hx.Canon(c03Canon(model["first"])), hx.Canon(c03Canon(model["second"]))
 	v := hx.Verdict{IM: true, IS: true}
-	if first != mfirst || second != msecond {
+	imEqual := first == mfirst && second == msecond
+	if !imEqual && jstr(c, "fmt") == "yaml3" {
+		// the yaml3 encoder writes a nil slice as [] and a nil map as {} where encoding/json writes null: a
+		// convention of the writer, not of the marshallers; the model is writer-agnostic, so for this writer the
+		// model/implementation comparison (only that one) identifies null, [] and {}
+		imEqual = hx.Canon(c03NilNorm(im["first"])) == hx.Canon(c03NilNorm(c03Canon(model["first"]))) &&
+			hx.Canon(c03NilNorm(im["second"])) == hx.Canon(c03NilNorm(c03Canon(model["second"])))
+	}
+	if !imEqual {
 		v.IM = false
 		v.Detail = fmt.Sprintf("impl first %s second %s; model first %s second %s", first, second, mfirst, msecond)
 	}
@@ -284,6 +293,32 @@ func cmpC03x(c hx.Case, impl any, reply map[string]any) hx.Verdict {
 	} else if normal && first != doc {
 		v.IS = false
 		v.Detail = fmt.Sprintf("normal-form input %s serialises to %s (%s)", doc, first, c03Diff(c["doc"], im["first"]))
+	}
+	return v
+}
+
+func c03NilNorm(v any) any {
+	switch x := v.(type) {
+	case nil:
+		return "∅"
+	case map[string]any:
+		if len(x) == 0 {
+			return "∅"
+		}
+		out := make(map[string]any, len(x))
+		for k, e := range x {
+			out[k] = c03NilNorm(e)
+		}
+		return out
+	case []any:
+		if len(x) == 0 {
+			return "∅"
+		}
+		out := make([]any, len(x))
+		for i, e := range x {
+			out[i] = c03NilNorm(e)
+		}
+		return out
 	}
 	return v
 }
